@@ -19,8 +19,11 @@ import time
 import traceback
 
 ROOT = os.path.dirname(os.path.dirname(os.path.abspath(__file__)))
-EVIDENCE_DIR = os.path.join(ROOT, "evidence")
-REPLAY_DIR = os.path.join(ROOT, "replays")
+# VERIF_SCRATCH redirects evidence / replay output (development aid for runs against seeded changes, so
+# that they do not overwrite the evidence of the unchanged tree); registered commands never set it
+_OUT = os.environ.get("VERIF_SCRATCH") or ROOT
+EVIDENCE_DIR = os.path.join(_OUT, "evidence")
+REPLAY_DIR = os.path.join(_OUT, "replays")
 KNOWN_FILE = os.path.join(ROOT, "known_findings.jsonl")
 
 NCPU = int(os.environ.get("VERIF_JOBS", os.cpu_count() or 4))
